@@ -15,7 +15,7 @@ pub mod toy_curves;
 
 #[cfg(feature = "c01")]
 pub mod c01_field;
-#[cfg(any(feature = "c02", feature = "c11", feature = "c19"))]
+#[cfg(any(feature = "c02", feature = "c03", feature = "c04", feature = "c09", feature = "c10", feature = "c11", feature = "c12", feature = "c13", feature = "c19"))]
 pub mod c02_towers;
 #[cfg(any(feature = "c03", feature = "c04", feature = "c09", feature = "c10", feature = "c11", feature = "c12", feature = "c13", feature = "c19"))]
 pub mod c03_curves;
@@ -60,6 +60,8 @@ pub fn registry() -> std::vec::Vec<(&'static str, fn())> {
     v.extend_from_slice(c02_towers::REG);
     #[cfg(feature = "c03")]
     v.extend_from_slice(c03_curves::REG);
+    #[cfg(feature = "c03")]
+    v.extend_from_slice(c03_curves::REGEXT);
     #[cfg(feature = "c04")]
     v.extend_from_slice(c04_scalar_mul::REG);
     #[cfg(feature = "c05")]
